@@ -120,6 +120,33 @@ U_Long(zz) ==
     \cup {WithInputs(DeclP([C0 |-> Class(DefaultOpts, <<U1("a"), DataF("d", SzConst(k)), IntF("z", 2, FALSE, "default")>>)], {65}, 0, {0, 1}),
                      Cuts(RepB(65, k + 3))) : k \in {11, 33, 100, 111}}
 
+\* longer still, one family per distance at which an implementation might change strategy: sequences of 512 and more
+\* multi-byte little-endian integers; 256 and more aligned elements starting at an unaligned position; a greedy regex delimiter
+\* lying across 4096 bytes from the cursor; a delimited value of more than 512 bytes whose DELIMITER alone lands on bytes
+\* another field wrote; a two-byte marker lying across 65536 bytes from the cursor
+Be2(n) == <<n \div 256, n % 256>>
+AltB(n) == [i \in 1..n |-> IF i % 2 = 1 THEN 1 ELSE 128]
+U_LongSeq(zz) ==
+    {WithInputs(DeclP([C0 |-> Class(o, <<IntF("n", 2, FALSE, "big"), RepCountF("r", IntF("e", 2, FALSE, en), SzField("n"), NoCond, 0), U1("z")>>)],
+                      {1}, 0, {0, 5}), Cuts(Be2(520) \o AltB(1040) \o <<9>>)) :
+        o \in {DefaultOpts, [DefaultOpts EXCEPT !.endian = "little"]}, en \in {"default", "little"}}
+U_LongAligned(zz) ==
+    {WithInputs(DeclP([C0 |-> Class(DefaultOpts, <<U1("a"), IntF("n", 2, FALSE, "default"),
+                                                  RepCountF("r", IntF("e", w, FALSE, "default"), SzField("n"), NoCond, al), U1("z")>>)],
+                      {1}, 0, {0}), Cuts(<<7>> \o Be2(k) \o RepB(46, (al - (3 % al)) % al) \o AltB(k * w) \o <<9>>)) :
+        w \in {2, 4}, al \in {2}, k \in {255, 256, 300}}
+U_LongRegex(zz) ==
+    {WithInputs(DeclP([C0 |-> Class(DefaultOpts, <<U1("a"), DataF("d", SzRegex("Xplus", inc, TRUE)), U1("z")>>)], {65}, 0, {0, 1}),
+                {<<7>> \o RepB(65, k) \o RepB(88, 6) \o <<9>> : k \in {4090, 4093, 4096}}) : inc \in BOOLEAN}
+U_LongCollide(zz) ==
+    {WithInputs(DeclP([C0 |-> Class(DefaultOpts, <<[DataF("f", SzConst(4)) EXCEPT !.mv = [kind |-> "at", arg |-> SzConst(700), ref |-> "innermost-pkt"]],
+                                                  [IntF("n", 2, FALSE, "default") EXCEPT !.mv = [kind |-> "at", arg |-> SzConst(0), ref |-> "innermost-pkt"]],
+                                                  DataF("t", SzMarker(<<10>>, FALSE, TRUE))>>)], {65}, 0, {0}),
+                {<<0, 1>> \o RepB(65, k) \o <<10>> \o RepB(66, 704 - (k + 3)) : k \in {697, 698, 699}})}
+U_LongMarker(zz) ==
+    {WithInputs(DeclP([C0 |-> Class(DefaultOpts, <<U1("a"), DataF("d", SzMarker(<<13, 10>>, FALSE, TRUE)), U1("z")>>)], {65}, 0, {0}),
+                {<<7>> \o RepB(65, k) \o <<13, 10, 9>> : k \in {65534, 65535}})}
+
 \* -------------------------------------------------------------------- C07
 \* all compositions of `total` bits into consecutive Bits fields
 RECURSIVE Compositions(_)
@@ -302,7 +329,7 @@ U_C03_Mixed(zz) ==
           DeclP([C0 |-> Class(DefaultOpts, <<U1("a")>> \o Embedded("p", "C1", <<>>, Sub1.fields)
                                            \o <<DataF("m", SzMarker(<<0>>, FALSE, TRUE)), IntF("t", 3, FALSE, "default"), U1("z")>>), C1 |-> Sub1],
                 {0, 1, 2}, 7, {0})}
-U_C03(zz) == U_C03_Fixed(0) \cup U_C03_Mixed(0) \cup U_Long(0)
+U_C03(zz) == U_C03_Fixed(0) \cup U_C03_Mixed(0) \cup U_Long(0) \cup U_LongSeq(0) \cup U_LongAligned(0)
 U_C03_Q(zz) == {d \in U_C03_Fixed(0) : d.prog["C0"].opts.endian = "little" \/ d.prog["C0"].fields[1].k = "Data"
                                  \/ (d.prog["C0"].fields[1].k = "Int" /\ d.prog["C0"].fields[1].n \in {1, 3})} \cup U_C03_Mixed(0) \cup U_Long(0)
 
@@ -509,6 +536,14 @@ PickU(n) ==
       [] n = "U_C01_Q" -> U_C01_Q(0)
       [] n = "U_C14_End" -> U_C14_End(0)
       [] n = "U_Long" -> U_Long(0)
+      [] n = "U_LongC01" -> U_LongSeq(0) \cup U_LongCollide(0)
+      [] n = "U_LongC06" -> U_LongRegex(0) \cup U_LongMarker(0)
+      [] n = "U_LongC12" -> U_LongCollide(0) \cup U_LongAligned(0)
+      [] n = "U_LongSeq" -> U_LongSeq(0)
+      [] n = "U_LongAligned" -> U_LongAligned(0)
+      [] n = "U_LongRegex" -> U_LongRegex(0)
+      [] n = "U_LongCollide" -> U_LongCollide(0)
+      [] n = "U_LongMarker" -> U_LongMarker(0)
       [] n = "U_C14" -> U_C14(0)
       [] n = "U_C14_Q" -> U_C14_Q(0)
 =============================================================================
